@@ -62,6 +62,17 @@ var detTemplates = []detTemplate{
 	{name: "rename-chain-internal", args: []string{"rename", "-i", "@named.nw", "-m", "@chain.txt", "--internal", "--seed", "@SEED", "-o", "@OUT"}},
 	{name: "reformat-nexus-translate-numeric", args: []string{"reformat", "nexus", "-i", "@numeric.nw", "--translate", "--seed", "@SEED", "-o", "@OUT"}},
 	{name: "reformat-newick-from-numeric-nexus", args: []string{"reformat", "newick", "-i", "@numeric.nx", "-f", "nexus", "--seed", "@SEED", "-o", "@OUT"}},
+	{name: "compare-trees-bad", args: []string{"compare", "trees", "-i", "@ref.nw", "-c", "@trees_bad.nw", "-t", "@T", "--seed", "@SEED"}, stdout: true, perTree: true, threaded: true},
+	{name: "compare-trees-bad-weighted", args: []string{"compare", "trees", "-i", "@ref.nw", "-c", "@trees_bad.nw", "-t", "@T", "--weighted", "--seed", "@SEED"}, stdout: true, perTree: true, threaded: true},
+	{name: "fbp-bad", args: []string{"compute", "support", "fbp", "-i", "@ref.nw", "-b", "@trees_bad.nw", "-t", "@T", "-l", "@X1", "--silent", "--seed", "@SEED", "-o", "@OUT"}, threaded: true},
+	{name: "tbe-bad", args: []string{"compute", "support", "tbe", "-i", "@ref.nw", "-b", "@trees_bad.nw", "-t", "@T", "-l", "@X1", "--silent", "--seed", "@SEED", "-o", "@OUT"}, threaded: true},
+	{name: "brlen-setrand-external-only", args: []string{"brlen", "setrand", "-i", "@one.nw", "--internal=false", "--seed", "@SEED", "-o", "@OUT"}},
+	{name: "brlen-setrand-internal-only", args: []string{"brlen", "setrand", "-i", "@one.nw", "--external=false", "-m", "0.5", "--seed", "@SEED", "-o", "@OUT"}},
+	{name: "brlen-setrand-nexus", args: []string{"brlen", "setrand", "-i", "@trees.nx", "--format", "nexus", "--seed", "@SEED", "-o", "@OUT"}},
+	{name: "resolve-nexus", args: []string{"resolve", "-i", "@trees.nx", "--format", "nexus", "--seed", "@SEED", "-o", "@OUT"}},
+	{name: "acr-numeric-states", args: []string{"acr", "-i", "@rooted.nw", "--states", "@numstates.txt", "--algo", "acctran", "--out-steps", "@X1", "--out-states", "@X2", "--seed", "@SEED", "-o", "@OUT"}},
+	{name: "acr-numeric-states-random", args: []string{"acr", "-i", "@rooted.nw", "--states", "@numstates.txt", "--algo", "downpass", "--random-resolve", "--out-steps", "@X1", "--out-states", "@X2", "--seed", "@SEED", "-o", "@OUT"}},
+	{name: "sample-many", args: []string{"sample", "-i", "@trees.nw", "-n", "3", "--seed", "@SEED", "-o", "@OUT"}},
 	{name: "rename-auto", args: []string{"rename", "-i", "@trees.nw", "--auto", "--internal", "--tips", "-l", "6", "--seed", "@SEED", "-o", "@OUT"}},
 	{name: "reformat-nexus-translate", args: []string{"reformat", "nexus", "-i", "@trees.nw", "--translate", "--seed", "@SEED", "-o", "@OUT"}},
 	{name: "edgetrees", args: []string{"compute", "edgetrees", "-i", "@one.nw", "-t", "@T", "--seed", "@SEED", "-o", "@OUTPREFIX"}, threaded: true},
@@ -196,6 +207,11 @@ func genDetFiles(rt *rapid.T) map[string]string {
 	}
 	files["trees.nw"] = strings.Join(trees, "\n") + "\n"
 	files["ref.nw"] = withSup(related(base, r, 1, 0)).Newick() + "\n"
+	// the same collection with one tree on other taxa somewhere in the middle
+	bad := append([]string(nil), trees...)
+	pos := r.Intn(len(bad))
+	bad[pos] = replaceTip(bad[pos], tx[r.Intn(len(tx))], "FOREIGN")
+	files["trees_bad.nw"] = strings.Join(bad, "\n") + "\n"
 	files["one.nw"] = withSup(RandomTree(tx, r, 4, true)).Newick() + "\n"
 	files["bin.nw"] = RandomTree(tx, r, 2, true).Newick() + "\n"
 	rooted := RandomTree(tx, r, 3, true)
@@ -232,12 +248,18 @@ func genDetFiles(rt *rapid.T) map[string]string {
 		states.WriteString(name + "\t" + []string{"x", "y", "z", "w"}[rapid.IntRange(0, 3).Draw(rt, "state")] + "\n")
 	}
 	files["prot.fa"], files["nt.fa"], files["states.txt"] = prot.String(), nt.String(), states.String()
+	// states that are equal as numbers but different as text
+	var numstates strings.Builder
+	for i, name := range tx {
+		numstates.WriteString(name + "\t" + []string{"1", "1.0", "2", "02", "nan", "1e1", "10"}[(i+rapid.IntRange(0, 6).Draw(rt, "numstate"))%7] + "\n")
+	}
+	files["numstates.txt"] = numstates.String()
 	files["map.txt"] = "t0\tA0\nt1\tB1\nt2\tC2\n"
 	// a chained map: some new names are other nodes' old names
-	files["chain.txt"] = "t0\tt1\nt1\tt2\nt2\tt3\nt3\tt4\nt4\tzz\n"
+	files["chain.txt"] = "t0\tt1\nt1\tt2\nt2\tt3\nt3\tt4\nt4\tzz\nt0x\tt1x\nt1x\tt2x\nt2x\tyy\n"
 	named := RandomTree(tx, r, 3, true)
 	for i, x := range innerNodes(named) {
-		x.Label = "t" + strconv.Itoa(i%3) + "x"
+		x.Label = "t" + strconv.Itoa(i) + "x"
 	}
 	files["named.nw"] = named.Newick() + "\n"
 	// numeric tip names overlapping the indices of a translate table
@@ -474,6 +496,11 @@ func diffResults(a, b detResult, crossProcess bool) string {
 		if sb != "ok" {
 			sb = "error"
 		}
+	}
+	if strings.HasPrefix(sa, "error") && strings.HasPrefix(sb, "error") {
+		// both runs report an error to the caller: what a streaming command had already printed when the error arrived is not a result
+		// (with several threads it depends on which records were finished first)
+		return ""
 	}
 	if sa != sb {
 		return fmt.Sprintf("status %q vs %q", a.status, b.status)
